@@ -8,7 +8,10 @@ WT="/tmp/seedrun-$$"
 git -C /repo worktree add -q --detach "$WT" HEAD || exit 9
 trap 'git -C /repo worktree remove --force "$WT" >/dev/null 2>&1' EXIT INT TERM
 git -C "$WT" apply "$P" || { echo "patch does not apply"; exit 9; }
+# (the evidence file describes runs on /repo itself: keep it, the seeded run's evidence goes to /tmp)
+[ -f /verif/evidence/$C.json ] && cp /verif/evidence/$C.json /tmp/try_seed.$$.evidence
 cd /verif && VERIF_REPO="$WT" timeout 2400 ./check "$C" --tier "$T" > /tmp/try_seed.$$.out 2>&1; RC=$?
+[ -f /tmp/try_seed.$$.evidence ] && mv /tmp/try_seed.$$.evidence /verif/evidence/$C.json
 grep -E "^VIOLATION|MACHINERY|tier=" /tmp/try_seed.$$.out | cut -c1-230 | head -8
 echo "exit=$RC"
 rm -f /tmp/try_seed.$$.out /verif/replays/$C-*.json
